@@ -57,6 +57,46 @@ Theorem C34_boundaries :
   forallb (fun c => v1_boundaries c && v2_boundaries c) all_configs = true.
 Proof. vm_compute. reflexivity. Qed.
 
+(* ---- the configured-depth-0 corner: `max_subintent_depth - 1` for a subintent root ---- *)
+(* the explicit panic outcome is produced only for a signed partial transaction (subintent root) under a
+   configuration that permits and allows V2 and has max_subintent_depth = 0 ... *)
+Theorem C34_depth_underflow_only_if : forall c net t,
+  validate_v2 c net t = PanicDepthUnderflow ->
+  v2_transactions_permitted c = true /\ v2_transactions_allowed c = true /\
+  max_subintent_depth c = 0 /\ v2_tip t = None.
+Proof. exact v2_panic_only_if. Qed.
+(* ... it is reached by the smallest such transaction under latest() with the depth set to 0 ... *)
+Theorem C34_depth_underflow_reached :
+  validate_v2 (mkConfig 16 512 0 65535 8640 1000 2048 2076 128 20 true 0 1000000 0 64 512 true 1048576 32 32 64)
+              (Some 1) depth0_witness = PanicDepthUnderflow.
+Proof. vm_compute. reflexivity. Qed.
+(* ... and by no configuration constructor in the code: babylon() has depth 0 but does not permit V2 at
+   preparation, cuttlefish()/latest() have depth 3 (re-evaluated on the generated table on every run) *)
+Theorem C34_depth_underflow_unreachable_for_generated : forall c net t,
+  In c all_configs -> validate_v2 c net t <> PanicDepthUnderflow.
+Proof.
+  intros c net t Hin H. apply C34_depth_underflow_only_if in H. destruct H as (P & _ & D & _).
+  assert (G : forallb (fun c => negb (max_subintent_depth c =? 0) || negb (v2_transactions_permitted c)) all_configs = true)
+    by (vm_compute; reflexivity).
+  rewrite forallb_forall in G. specialize (G c Hin). rewrite D, P in G. discriminate.
+Qed.
+
+(* ---- preview entry points ---- *)
+(* validate_preview_intent_v1: accepted iff the intent's own limits hold; nothing about signatures or the
+   payload length is checked (signer public keys are passed through) *)
+Theorem C34_preview_v1_accept_iff : forall c net t,
+  validate_preview_v1 c net t = AcceptV1 <-> within_preview_v1 c net t.
+Proof. exact preview_v1_accept_iff. Qed.
+Theorem C34_v1_accept_iff_preview : forall c net t,
+  validate_v1 c net t = AcceptV1 <->
+  validate_preview_v1 c net t = AcceptV1 /\
+  v1_payload_len t <= max_user_payload_length c /\
+  v1_signatures t <= max_signer_signatures_per_intent c /\
+  v1_signatures t + 1 <= max_total_signature_validations c.
+Proof. exact v1_accept_iff_preview. Qed.
+(* PreviewTransactionV2 is `validate_v2` with v2_preview = true: C34_accept_iff_within_v2 covers it (no payload
+   length limit, no limit on the number of key batches at preparation; key counts are limited like signatures) *)
+
 Example C34_nonvacuous :
   within_v1 cfg_cuttlefish (Some 1) (base1 cfg_cuttlefish) /\
   validate_v2 cfg_cuttlefish (Some 1)
@@ -75,3 +115,5 @@ Print Assumptions C34_accept_iff_within_v2.
 Print Assumptions C34_epoch_window.
 Print Assumptions C34_overall_window.
 Print Assumptions C34_boundaries.
+Print Assumptions C34_depth_underflow_unreachable_for_generated.
+Print Assumptions C34_preview_v1_accept_iff.
